@@ -440,6 +440,7 @@ func (m *Machine) Concretize(t *Term) uint64 {
 		if !m.live() {
 			v = uint64(m.nextReplay(dValue))
 		} else {
+			m.solver.emit(t)
 			m.solver.Push()
 			r := m.solver.Check()
 			if r != Sat {
